@@ -124,6 +124,20 @@ def fill_schema():
     return Schema({"nodes": nodes, "marks": {k: dict(v) for k, v in basic_schema.spec["marks"].items()}})
 
 
+def strip_schema():
+    """a content expression that *requires* a trailing text: NodeContext.finish strips a whitespace-only last text node
+    after `match` has advanced over it, so `<figure><br><img src="a"> </figure>` parses to an invalid fig(hard_break, image).
+    Used for the model tie only (the model must reproduce the invalid document); TextStable fails for this schema."""
+    nodes = {k: dict(v) for k, v in basic_schema.spec["nodes"].items()}
+    nodes["fig"] = {"content": "hard_break image? (text | hard_break)", "group": "block", "parseDOM": [{"tag": "figure"}],
+                    "toDOM": lambda _: ["figure", 0]}
+    return Schema({"nodes": nodes, "marks": {k: dict(v) for k, v in basic_schema.spec["marks"].items()}})
+
+
+EDGE_HTML = ['<figure><br><img src="a"> </figure>', '<figure><br><img src="a">x</figure>', '<figure><br><img src="a"></figure>',
+             '<figure> <br> <img src="a"> <b> </b></figure>', '<p>a</p><figure><br> </figure> <figure></figure>']
+
+
 def whitespace_normal(doc):
     """text that HTML whitespace collapsing leaves alone: outside code blocks no tab/newline, no double space, and no
     space at the start or end of a textblock or next to a hard break / block boundary"""
@@ -511,6 +525,19 @@ def run(ctx):
             walk(node, ["doc"])
             if bad:
                 ctx.violation("context-rule", "a context-restricted parse rule was applied where the open ancestors do not match, or not applied where they do: " + bad[0], dict(replay, doc=j))
+    # fixed edge cases, tie only: the real parser returns an INVALID document here (upstream behaviour, see strip_schema)
+    sinfo = codec.SchemaInfo(strip_schema(), "strip")
+    sparser = DOMParser.from_schema(sinfo.schema)
+    for html in EDGE_HTML:
+        sid = ctx.driver.add_schema(sinfo)
+        dom = lxml.html.fragment_fromstring(html, create_parent="document-fragment")
+        (st_r, doc_r), pcs = recorded(sinfo, lambda: sparser.parse(dom))
+        if st_r == "ok" and len(pcs) == 1 and pcs[0]._supported:
+            preqs.append(placement_request(sinfo, sid, pcs[0]))
+            pmetas.append(({"schema": "strip", "html": html}, sinfo, pcs[0], "edge"))
+            st_c, _ = outcome(doc_r.check)
+            ctx.count("edge_case_real_doc_" + ("valid" if st_c == "ok" else "invalid"))
+    infos["strip"] = sinfo
     if preqs:
         # the decidable schema hypotheses of the placement theorems (Det, TextStable) on every schema of the tie
         hyp_infos = list(infos.values())
